@@ -10,6 +10,9 @@ Generic theorems (any classification `cls`, any programs, any schedule of operat
   C04_history_irrelevant       hence any two histories followed by reset(seed) and the same later operations (even
                                interleaved with other instances) give the same trajectory
 Skeleton theorems (the four operations as the inventory describes them): see the second half of the file.
+Round 3: the F-10 repair (NMNE settings per game) is followed — C04_skeleton_isolated_partial now excludes exactly F-11, with the code's own
+`stepProg`; C04_gen_globals_safe is FULL; the seed argument is an `Option Int` (C04_reset_call_reseeds, C04_reset_any_seed_episode_fresh,
+C04_gen_seed_handling, C04_truthy_seed_counterexample, C04_unseeded_reset_fresh_modulo_rng).
 -/
 import PrimaiteModel.Model.Isolation
 import PrimaiteModel.Gen.SharedState
@@ -436,51 +439,163 @@ def C04_FullSkeletonIsolated : Prop :=
     (∀ ev ∈ evs, ev.prog = constructProg ∨ ev.prog = resetProg ∨ ev.prog = stepProg ∨ ev.prog = stepProgClean) →
     traj a (run evs p).2 = traj a (run (onlyOf a evs) p).2
 
-/-- the classification under which construct / reset pass: NMNE class attributes re-written before read, RNG re-seeded -/
+/-- construct / reset (with a seed) respect the discipline: the RNG is re-seeded before it is drawn, NMNE settings are per-game state -/
 theorem constructProg_ok : progOK refClass constructProg = true := by decide
 theorem resetProg_ok : progOK refClass resetProg = true := by decide
 theorem resetProg_resetOK : resetOK refClass resetProg = true := by decide
 theorem resetProg_rebuilds : finalL false resetProg = true := by decide
 theorem stepProgClean_ok : progOK refClass stepProgClean = true := by decide
-/-- `step` as the code is does NOT respect the discipline (F-10: nmne_config / capture_nmne, F-11: global RNG) -/
+/-- since the F-10 repair, `step` of an instance that draws nothing from the global generators respects the discipline … -/
+theorem stepProgNoRng_ok : progOK refClass stepProgNoRng = true := by decide
+/-- … while `step` as the code is for an instance WITH scripted agents / red applications does not (F-11: global RNG) -/
 theorem stepProg_not_ok : progOK refClass stepProg = false := by decide
-theorem stepProg_leaks : unprotectedReads [] stepProg = [gNmne, gRng, gRng, gRng, gCapture] := by decide
+/-- the only globals `step` reads without having written them that are not import-only: the generator (F-11), three times -/
+theorem stepProg_leaks : (unprotectedReads [] stepProg).filter (fun g => refClass g != .importOnly) = [gRng, gRng, gRng] := by decide
 theorem noSeed_not_ok : progOK refClass constructProgNoSeed = false ∧ progOK refClass resetProgNoSeed = false := by decide
 
-/-- Partial: excluding exactly the operations whose program is the leaking `step` (decidable hypothesis), the skeleton
-is isolated — construct and reset (with a seed) of other instances never disturb an instance. -/
+/-- on an instance that does not use the global generators in `step`, `stepProg` IS `stepProgNoRng` (same new state, globals, outputs) -/
+theorem step_norng_eq (a : Val) (i : Inst) (G : Store) (h : i.env eUsesRng = 0) :
+    execProg a stepProg i G = execProg a stepProgNoRng i G := by
+  simp only [eUsesRng] at h
+  have hG : upd G gRng (G gRng) = G := by
+    funext y
+    by_cases e : y = gRng <;> simp [upd, e]
+  simp [stepProg, stepProgNoRng, nmneInForce, execProg, execCmd, eval, upd, eUsesRng, lState, lStep, lNmne, gNmne, gRng, gSimOutput, h] at hG ⊢
+  exact hG
+
+/-- the environment-level attribute "uses the global generators" is never assigned by an operation of the skeleton -/
+theorem usesRng_const (a : Val) (i : Inst) (G : Store) (p : List Cmd)
+    (hp : p = constructProg ∨ p = resetProg ∨ p = stepProg ∨ p = stepProgClean ∨ p = stepProgNoRng) :
+    (execProg a p i G).1.env eUsesRng = i.env eUsesRng := by
+  rcases hp with h | h | h | h | h <;> subst h <;>
+    simp [constructProg, resetProg, resetHead, buildGame, stepProg, stepProgClean, stepProgNoRng, execProg, execCmd, upd, eUsesRng, eEpisode]
+
+/-- replace the `step` of instances that do not use the generators by its generator-free form -/
+def normEvent (p : Proc) (ev : Event) : Event :=
+  if ev.prog = stepProg ∧ (p.inst ev.who).env eUsesRng = 0 then { ev with prog := stepProgNoRng } else ev
+
+/-- the "uses the generators" flags of all instances -/
+def flags (p : Proc) : Nat → Val := fun k => (p.inst k).env eUsesRng
+
+theorem stepProc_norm (p : Proc) (ev : Event) : stepProc p (normEvent p ev) = stepProc p ev := by
+  unfold normEvent
+  split
+  · rename_i h
+    simp only [stepProc]
+    rw [h.1, step_norng_eq ev.arg (p.inst ev.who) p.glob h.2]
+  · rfl
+
+theorem flags_step (p : Proc) (ev : Event)
+    (hp : ev.prog = constructProg ∨ ev.prog = resetProg ∨ ev.prog = stepProg ∨ ev.prog = stepProgClean ∨ ev.prog = stepProgNoRng) :
+    flags (stepProc p ev).1 = flags p := by
+  funext k
+  simp only [flags, stepProc]
+  by_cases hk : k = ev.who
+  · subst hk
+    simp only [if_true]
+    exact usesRng_const ev.arg _ _ _ hp
+  · simp [hk]
+
+/-- events normalised along the run (the flag of an instance never changes, so the start process decides) -/
+def normAll (p : Proc) (evs : List Event) : List Event := evs.map (normEvent p)
+
+theorem normEvent_congr (p q : Proc) (ev : Event) (h : flags p = flags q) : normEvent p ev = normEvent q ev := by
+  have : (p.inst ev.who).env eUsesRng = (q.inst ev.who).env eUsesRng := congrFun h ev.who
+  simp [normEvent, this]
+
+theorem normEvent_who (p : Proc) (e : Event) : (normEvent p e).who = e.who := by
+  unfold normEvent
+  split <;> rfl
+
+theorem run_norm : ∀ (evs : List Event) (p : Proc),
+    (∀ ev ∈ evs, ev.prog = constructProg ∨ ev.prog = resetProg ∨ ev.prog = stepProg ∨ ev.prog = stepProgClean) →
+    run (normAll p evs) p = run evs p := by
+  intro evs
+  induction evs with
+  | nil => intro p _; rfl
+  | cons ev r ih =>
+    intro p h
+    have hev := h ev (List.mem_cons_self ..)
+    have hev' : ev.prog = constructProg ∨ ev.prog = resetProg ∨ ev.prog = stepProg ∨ ev.prog = stepProgClean ∨ ev.prog = stepProgNoRng := by
+      rcases hev with e | e | e | e
+      · exact Or.inl e
+      · exact Or.inr (Or.inl e)
+      · exact Or.inr (Or.inr (Or.inl e))
+      · exact Or.inr (Or.inr (Or.inr (Or.inl e)))
+    have hfl := flags_step p ev hev'
+    have hmap : (r.map (normEvent p)) = r.map (normEvent (stepProc p ev).1) := by
+      apply List.map_congr_left
+      intro e _
+      exact normEvent_congr _ _ e hfl.symm
+    simp only [normAll, List.map_cons, run]
+    rw [stepProc_norm, hmap, normEvent_who]
+    have := ih (stepProc p ev).1 (fun e he => h e (List.mem_cons_of_mem _ he))
+    simp only [normAll] at this
+    rw [this]
+
+/-- **Since the F-10 repair** the partial theorem excludes exactly F-11: in ANY schedule of construct / reset(seed) / step operations of any
+number of instances — the code's `stepProg` included — in which every instance that is STEPPED draws nothing from the global generators
+(decidable hypothesis on the start process), every instance's trajectory is its solo trajectory. NMNE settings no longer appear. -/
 theorem C04_skeleton_isolated_partial (a : Nat) (evs : List Event) (p : Proc)
     (h : ∀ ev ∈ evs, ev.prog = constructProg ∨ ev.prog = resetProg ∨ ev.prog = stepProg ∨ ev.prog = stepProgClean)
-    (hx : ∀ ev ∈ evs, ev.prog ≠ stepProg) :
+    (hx : ∀ ev ∈ evs, ev.prog = stepProg → (p.inst ev.who).env eUsesRng = 0) :
     traj a (run evs p).2 = traj a (run (onlyOf a evs) p).2 := by
-  have hok : ∀ ev ∈ evs, progOK refClass ev.prog = true := by
+  have hok : ∀ ev ∈ normAll p evs, progOK refClass ev.prog = true := by
     intro ev he
-    rcases h ev he with e | e | e | e
-    · rw [e]; exact constructProg_ok
-    · rw [e]; exact resetProg_ok
-    · exact absurd e (hx ev he)
-    · rw [e]; exact stepProgClean_ok
-  exact (C04_instances_independent refClass a evs p p hok rfl (fun _ _ => rfl)).1
+    simp only [normAll, List.mem_map] at he
+    obtain ⟨e0, he0, rfl⟩ := he
+    unfold normEvent
+    split
+    · exact stepProgNoRng_ok
+    · rename_i hn
+      rcases h e0 he0 with e | e | e | e
+      · rw [e]; exact constructProg_ok
+      · rw [e]; exact resetProg_ok
+      · exact absurd ⟨e, hx e0 he0 e⟩ hn
+      · rw [e]; exact stepProgClean_ok
+  have hind := (C04_instances_independent refClass a (normAll p evs) p p hok rfl (fun _ _ => rfl)).1
+  have hwho : ∀ e : Event, (normEvent p e).who = e.who := normEvent_who p
+  have hfilter : onlyOf a (normAll p evs) = normAll p (onlyOf a evs) := by
+    simp only [onlyOf, normAll, List.filter_map]
+    congr 1
+    apply List.filter_congr
+    intro e _
+    simp [Function.comp, hwho]
+  rw [hfilter, run_norm evs p h, run_norm (onlyOf a evs) p (fun e he => h e (List.mem_filter.1 he).1)] at hind
+  exact hind
 
 def proc0 : Proc := { inst := fun i => initInst 7 (if i = 0 then 1 else 0) 0, glob := fun _ => 0 }
+/-- two instances with different NMNE settings, none of which draws from the global generators -/
+def procQuiet : Proc := { inst := fun i => initInst 7 (if i = 0 then 1 else 0) 0 0, glob := fun _ => 0 }
 
-/-- non-vacuity of the partial theorem: a schedule with two instances, resets and clean steps -/
-example : traj 0 (run [⟨0, constructProg, 5⟩, ⟨1, constructProg, 9⟩, ⟨0, stepProgClean, 2⟩, ⟨1, resetProg, 4⟩, ⟨0, stepProgClean, 3⟩] proc0).2
-    = [[13], [14, 1], [17, 2]] := by decide
+/-- non-vacuity of the partial theorem: two instances with DIFFERENT NMNE settings, resets and the code's own `step` -/
+example : traj 0 (run [⟨0, constructProg, 5⟩, ⟨1, constructProg, 9⟩, ⟨0, stepProg, 2⟩, ⟨1, resetProg, 4⟩, ⟨1, stepProg, 1⟩, ⟨0, stepProg, 3⟩] procQuiet).2
+    = [[8], [11, 1], [15, 2]] := by decide
+example : ∀ ev ∈ [(⟨0, constructProg, 5⟩ : Event), ⟨1, constructProg, 9⟩, ⟨0, stepProg, 2⟩], ev.prog = stepProg → (procQuiet.inst ev.who).env eUsesRng = 0 := by
+  decide
 
-/-- F-10 witness: instance 0 captures NMNE (config 1), instance 1 is built from a scenario that does not (config 0);
-after instance 1's construction, instance 0's step reads instance 1's class attributes. -/
+/-- F-10 witness (FIXED): instance 0 captures NMNE (config 1), instance 1 is built from a scenario that does not (config 0). -/
 def witnessF10 : List Event := [⟨0, constructProg, 5⟩, ⟨1, constructProg, 5⟩, ⟨0, stepProg, 2⟩]
 /-- F-11 witness: identical scenarios; instance 1's step advances the global RNG between two steps of instance 0. -/
 def witnessF11 : List Event := [⟨0, resetProg, 5⟩, ⟨0, stepProg, 2⟩, ⟨1, stepProg, 2⟩, ⟨0, stepProg, 2⟩]
 def proc1 : Proc := { inst := fun _ => initInst 7 1 0, glob := fun _ => 0 }
 
-theorem C04_skeleton_counterexample : ¬ C04_FullSkeletonIsolated := by
+/-- the F-10 witness no longer separates the interleaved run from the solo run (the instances even use the generators here) -/
+theorem C04_skeleton_f10_witness_isolated : traj 0 (run witnessF10 proc0).2 = traj 0 (run (onlyOf 0 witnessF10) proc0).2 := by decide
+
+/-- BEFORE the repair (class attributes written by every from_config, read by every step) the same schedule did separate them -/
+def C04_ClassAttrSkeletonIsolated : Prop :=
+  ∀ (a : Nat) (evs : List Event) (p : Proc),
+    (∀ ev ∈ evs, ev.prog = constructProgClassAttrs ∨ ev.prog = resetProgClassAttrs ∨ ev.prog = stepProgClassAttrs ∨ ev.prog = stepProgClean) →
+    traj a (run evs p).2 = traj a (run (onlyOf a evs) p).2
+
+theorem C04_class_attr_counterexample : ¬ C04_ClassAttrSkeletonIsolated := by
   intro h
-  have := h 0 witnessF10 proc0 (by decide)
+  have := h 0 [⟨0, constructProgClassAttrs, 5⟩, ⟨1, constructProgClassAttrs, 5⟩, ⟨0, stepProgClassAttrs, 2⟩] procQuiet (by decide)
   revert this
   decide
 
+/-- F-11 still refutes the full statement -/
 theorem C04_skeleton_counterexample_rng : ¬ C04_FullSkeletonIsolated := by
   intro h
   have := h 0 witnessF11 proc1 (by decide)
@@ -514,31 +629,33 @@ def EpisodeMatch (i j : Inst) : Prop :=
   j.env eScheduled = 0 ∧ j.env eNmneVar = 0
   ∧ j.env eConfig = i.env eConfig + (if i.env eScheduled ≠ 0 then i.env eEpisode + 1 else 0)
   ∧ j.env eNmneCfg = i.env eNmneCfg + (if i.env eNmneVar ≠ 0 then i.env eEpisode + 1 else 0)
-  ∧ j.env eIo = i.env eIo ∧ j.env eUsesRng = i.env eUsesRng
+  ∧ j.env eIo = i.env eIo ∧ j.env eUsesRng = i.env eUsesRng ∧ j.env eBuildRng = i.env eBuildRng
 
 /-- what a `step` of a lone instance depends on -/
 def StepRel (i j : Inst) (G G' : Store) : Prop :=
-  i.loc = j.loc ∧ i.env eUsesRng = j.env eUsesRng ∧ G gRng = G' gRng ∧ G gNmne = G' gNmne ∧ G gCapture = G' gCapture
+  i.loc = j.loc ∧ i.env eUsesRng = j.env eUsesRng ∧ G gRng = G' gRng ∧ G gNmne = G' gNmne
 
-theorem reset_episode_match (seed : Val) (i j : Inst) (G G' : Store) (hm : EpisodeMatch i j) (hG : G gImport = G' gImport) :
+theorem reset_episode_match (seed : Val) (i j : Inst) (G G' : Store) (hm : EpisodeMatch i j) (hG : G gImport = G' gImport)
+    (hN : G gNmne = G' gNmne) :
     (execProg seed resetProg i G).2.2 = (execProg seed resetProg j G').2.2
     ∧ StepRel (execProg seed resetProg i G).1 (execProg seed resetProg j G').1 (execProg seed resetProg i G).2.1 (execProg seed resetProg j G').2.1 := by
-  obtain ⟨h1, h2, h3, h4, h5, h6⟩ := hm
-  simp only [eScheduled, eNmneVar, eConfig, eNmneCfg, eIo, eUsesRng, eEpisode, gImport] at h1 h2 h3 h4 h5 h6 hG
+  obtain ⟨h1, h2, h3, h4, h5, h6, h7⟩ := hm
+  simp only [eScheduled, eNmneVar, eConfig, eNmneCfg, eIo, eUsesRng, eBuildRng, eEpisode, gImport, gNmne] at h1 h2 h3 h4 h5 h6 h7 hG hN
   by_cases hs : i.env 5 = 0 <;> by_cases hv : i.env 6 = 0 <;>
     simp only [hs, hv, ne_eq, not_true_eq_false, not_false_eq_true, if_true, if_false] at h3 h4 <;>
-    refine ⟨?_, ?_, ?_, ?_, ?_, ?_⟩ <;>
-    simp [resetProg, buildGame, scenarioExpr, nmneExpr, execProg, execCmd, eval, upd, eScheduled, eNmneVar, eConfig, eNmneCfg, eIo,
-      eUsesRng, eEpisode, gImport, gRng, gNmne, gCapture, gSimOutput, gPcapLoggers, lState, lStep, h1, h2, h3, h4, h5, h6, hG, hs, hv] <;>
-    omega
+    refine ⟨?_, ?_, ?_, ?_, ?_⟩ <;>
+    simp [resetProg, resetHead, buildGame, scenarioExpr, nmneExpr, nmneInForce, execProg, execCmd, eval, upd, eScheduled, eNmneVar, eConfig,
+      eNmneCfg, eIo, eUsesRng, eBuildRng, eEpisode, gImport, gRng, gNmne, gSimOutput, gPcapLoggers, lState, lStep, lNmne,
+      h1, h2, h3, h4, h5, h6, h7, hG, hN, hs, hv] <;>
+    (try funext y) <;> (try split) <;> (try simp_all) <;> omega
 
 theorem step_rel (a : Val) (i j : Inst) (G G' : Store) (h : StepRel i j G G') :
     (execProg a stepProg i G).2.2 = (execProg a stepProg j G').2.2
     ∧ StepRel (execProg a stepProg i G).1 (execProg a stepProg j G').1 (execProg a stepProg i G).2.1 (execProg a stepProg j G').2.1 := by
-  obtain ⟨h1, h2, h3, h4, h5⟩ := h
-  simp only [eUsesRng, gRng, gNmne, gCapture] at h2 h3 h4 h5
-  refine ⟨?_, ?_, ?_, ?_, ?_, ?_⟩ <;>
-    simp [stepProg, execProg, execCmd, eval, upd, eUsesRng, gRng, gNmne, gCapture, gSimOutput, lState, lStep, h1, h2, h3, h4, h5]
+  obtain ⟨h1, h2, h3, h4⟩ := h
+  simp only [eUsesRng, gRng, gNmne] at h2 h3 h4
+  refine ⟨?_, ?_, ?_, ?_, ?_⟩ <;>
+    simp [stepProg, nmneInForce, execProg, execCmd, eval, upd, eUsesRng, gRng, gNmne, gSimOutput, lState, lStep, lNmne, h1, h2, h3, h4]
 
 theorem steps_rel : ∀ (acts : List Val) (i j : Inst) (G G' : Store), StepRel i j G G' →
     runSolo (acts.map fun a => (stepProg, a)) i G = runSolo (acts.map fun a => (stepProg, a)) j G' := by
@@ -556,24 +673,25 @@ as the code has them: whatever the long-lived instance `i` did before (its game 
 followed by ANY action sequence returns exactly what an instance `j` constructed for that episode's scenario (EpisodeMatch) returns for
 `reset(seed)` and the same actions in a process with arbitrary other globals `G'` (import-only tables equal). -/
 theorem C04_skeleton_scheduled_episode_fresh (seed : Val) (acts : List Val) (i j : Inst) (G G' : Store)
-    (hm : EpisodeMatch i j) (hG : G gImport = G' gImport) :
+    (hm : EpisodeMatch i j) (hG : G gImport = G' gImport) (hN : G gNmne = G' gNmne) :
     runSolo ((resetProg, seed) :: acts.map fun a => (stepProg, a)) i G
       = runSolo ((resetProg, seed) :: acts.map fun a => (stepProg, a)) j G' := by
-  have h := reset_episode_match seed i j G G' hm hG
+  have h := reset_episode_match seed i j G G' hm hG hN
   simp only [runSolo]
   rw [h.1, steps_rel acts _ _ _ _ h.2]
 
 /-- non-vacuity: a scheduled instance in its 3rd episode whose scenarios differ in nmne_config, and the constant instance for episode 4 -/
 example : EpisodeMatch (initInst 7 1 0 1 1 1 |> fun i => { i with env := upd i.env eEpisode 3 }) (initInst 11 5 0 1 0 0) := by
-  simp [EpisodeMatch, initInst, upd, eScheduled, eNmneVar, eConfig, eNmneCfg, eIo, eUsesRng, eEpisode]
+  simp [EpisodeMatch, initInst, upd, eScheduled, eNmneVar, eConfig, eNmneCfg, eIo, eUsesRng, eBuildRng, eEpisode]
 
 /-- the same statement for a `from_config` that assigns the NMNE class attributes only when the scenario has a (truthy) nmne_config -/
 def C04_CondWriteEpisodeFresh : Prop :=
   ∀ (seed : Val) (acts : List Val) (i j : Inst) (G G' : Store), EpisodeMatch i j → G gImport = G' gImport →
-    runSolo ((resetProgCond, seed) :: acts.map fun a => (stepProg, a)) i G
-      = runSolo ((resetProgCond, seed) :: acts.map fun a => (stepProg, a)) j G'
+    runSolo ((resetProgCond, seed) :: acts.map fun a => (stepProgClassAttrs, a)) i G
+      = runSolo ((resetProgCond, seed) :: acts.map fun a => (stepProgClassAttrs, a)) j G'
 
-theorem resetProgCond_not_ok : resetOK refClass resetProgCond = false ∧ progOK refClass resetProgCond = false := by decide
+theorem resetProgCond_not_ok : resetOK refClassPreFix resetProgCond = false ∧ progOK refClassPreFix resetProgCond = false
+    ∧ resetOK refClassPreFix resetProgClassAttrs = true := by decide
 
 /-- with a CONDITIONAL write the property fails: an episode whose scenario has no nmne_config (value 0) after an episode that captured
 (global still 5) differs from the environment built for that scenario in a new process (global 0). This is why
@@ -581,9 +699,99 @@ theorem resetProgCond_not_ok : resetOK refClass resetProgCond = false ∧ progOK
 theorem C04_conditional_write_counterexample : ¬ C04_CondWriteEpisodeFresh := by
   intro h
   have := h 3 [1] (initInst 7 0 0 0 0 0) (initInst 7 0 0 0 0 0) (fun g => if g = gNmne then 5 else if g = gCapture then 5 else 0) (fun _ => 0)
-    (by simp [EpisodeMatch, initInst, eScheduled, eNmneVar, eConfig, eNmneCfg, eIo, eUsesRng]) (by simp [gImport, gNmne, gCapture])
+    (by simp [EpisodeMatch, initInst, eScheduled, eNmneVar, eConfig, eNmneCfg, eIo, eUsesRng, eBuildRng]) (by simp [gImport, gNmne, gCapture])
   revert this
   decide
+
+/-! ### the seed argument: `reset(seed=…)` as a CALL (the quantifier over seeds made real)
+
+`C04_skeleton_scheduled_episode_fresh` quantifies over the argument of `resetProg`. What a Python call `reset(seed=v)` executes is decided by
+the guard in `reset` and by `set_random_seed` (Model: `resetCall`; regenerated from source: `C04_gen_seed_handling`). -/
+
+/-- every non-negative seed — 0 included — re-seeds: the call `reset(seed=v)` IS the skeleton's `resetProg` with argument `v`,
+whatever `generate_seed_value` says -/
+theorem C04_reset_call_reseeds (v : Int) (gen : Bool) (hv : 0 ≤ v) : resetCall (some v) gen = some (resetProg, v) := by
+  have h1 : ¬ v = -1 := by omega
+  have h2 : ¬ v < -1 := by omega
+  simp [resetCall, resetSeeding, resetSeedGuard, setRandomSeed, h1, h2]
+
+/-- `PrimaiteGymEnv(cfg)` with `game.seed: v`, `v ≥ 0`, is the seeded construction -/
+theorem C04_construct_call_reseeds (v : Int) (gen : Bool) (hv : 0 ≤ v) : constructCall (some v) gen = some (constructProg, v) := by
+  have h1 : ¬ v = -1 := by omega
+  have h2 : ¬ v < -1 := by omega
+  simp [constructCall, setRandomSeed, h1, h2]
+
+/-- the other arguments (quirks of the code kept): no argument and `-1` leave the generators alone; below `-1` raises -/
+theorem C04_reset_call_other :
+    resetCall none false = some (resetProgNoSeed, 0) ∧ resetCall none true = some (resetProgNoSeed, 0)
+    ∧ resetCall (some (-1)) false = some (resetProgNoSeed, 0) ∧ resetCall (some (-1)) true = none
+    ∧ (∀ v : Int, v < -1 → ∀ gen, resetCall (some v) gen = none) := by
+  refine ⟨by decide, by decide, by decide, by decide, ?_⟩
+  intro v hv gen
+  have h1 : ¬ v = -1 := by omega
+  simp [resetCall, resetSeeding, resetSeedGuard, setRandomSeed, h1, hv]
+
+/-- non-vacuity: seed 0 is a seed -/
+example : resetCall (some 0) = some (resetProg, 0) := by decide
+
+/-- **For every natural seed `s` (0, 1, the configured one, 2³²−1, …) the call `reset(seed=s)` followed by any actions returns, on a
+long-lived scheduled instance with an arbitrary past, what it returns on an instance built for that episode's scenario.** -/
+theorem C04_reset_any_seed_episode_fresh (s : Nat) (gen : Bool) (acts : List Val) (i j : Inst) (G G' : Store)
+    (hm : EpisodeMatch i j) (hG : G gImport = G' gImport) (hN : G gNmne = G' gNmne) :
+    ∃ op, resetCall (some (s : Int)) gen = some op ∧
+      runSolo (op :: acts.map fun a => (stepProg, a)) i G = runSolo (op :: acts.map fun a => (stepProg, a)) j G' :=
+  ⟨(resetProg, (s : Int)), C04_reset_call_reseeds s gen (by omega), C04_skeleton_scheduled_episode_fresh s acts i j G G' hm hG hN⟩
+
+/-- the same statement for a `reset` whose guard is a truthiness test (`if seed:`) -/
+def C04_TruthySeedEpisodeFresh : Prop :=
+  ∀ (s : Nat) (acts : List Val) (i j : Inst) (G G' : Store), EpisodeMatch i j → G gImport = G' gImport → G gNmne = G' gNmne →
+    ∃ op, resetCallTruthy (some (s : Int)) = some op ∧
+      runSolo (op :: acts.map fun a => (stepProg, a)) i G = runSolo (op :: acts.map fun a => (stepProg, a)) j G'
+
+/-- with a truthiness test `reset(seed=0)` is an unseeded reset: the episode shows where earlier episodes left the generator (5 vs 0).
+This is why `C04_gen_seed_handling` pins the guard for EVERY argument. -/
+theorem C04_truthy_seed_counterexample : ¬ C04_TruthySeedEpisodeFresh := by
+  intro h
+  obtain ⟨op, hop, heq⟩ := h 0 [] (initInst 7 0 0 1 0 0) (initInst 7 0 0 1 0 0) (fun g => if g = gRng then 5 else 0) (fun _ => 0)
+    (by simp [EpisodeMatch, initInst, eScheduled, eNmneVar, eConfig, eNmneCfg, eIo, eUsesRng, eBuildRng]) (by simp [gImport, gRng])
+    (by simp [gNmne, gRng])
+  have hop' : op = (resetProgNoSeed, 0) := by
+    have : resetCallTruthy (some ((0 : Nat) : Int)) = some (resetProgNoSeed, 0) := by decide
+    rw [this] at hop
+    exact (Option.some.inj hop).symm
+  subst hop'
+  revert heq
+  decide
+
+/-- what an UNSEEDED reset (`reset()`, Gymnasium: "the generator is not reset") carries over from the past is the generator state and
+nothing else: with equal generator states the episode equals the one of an instance built for that episode's scenario -/
+theorem reset_noseed_episode_match (a : Val) (i j : Inst) (G G' : Store) (hm : EpisodeMatch i j) (hG : G gImport = G' gImport)
+    (hN : G gNmne = G' gNmne) (hR : G gRng = G' gRng) :
+    (execProg a resetProgNoSeed i G).2.2 = (execProg a resetProgNoSeed j G').2.2
+    ∧ StepRel (execProg a resetProgNoSeed i G).1 (execProg a resetProgNoSeed j G').1 (execProg a resetProgNoSeed i G).2.1 (execProg a resetProgNoSeed j G').2.1 := by
+  obtain ⟨h1, h2, h3, h4, h5, h6, h7⟩ := hm
+  simp only [eScheduled, eNmneVar, eConfig, eNmneCfg, eIo, eUsesRng, eBuildRng, eEpisode, gImport, gRng, gNmne] at h1 h2 h3 h4 h5 h6 h7 hG hR hN
+  by_cases hs : i.env 5 = 0 <;> by_cases hv : i.env 6 = 0 <;>
+    simp only [hs, hv, ne_eq, not_true_eq_false, not_false_eq_true, if_true, if_false] at h3 h4 <;>
+    refine ⟨?_, ?_, ?_, ?_, ?_⟩ <;>
+    simp [resetProgNoSeed, resetHead, buildGame, scenarioExpr, nmneExpr, nmneInForce, execProg, execCmd, eval, upd, eScheduled, eNmneVar,
+      eConfig, eNmneCfg, eIo, eUsesRng, eBuildRng, eEpisode, gImport, gRng, gNmne, gSimOutput, gPcapLoggers, lState, lStep, lNmne,
+      h1, h2, h3, h4, h5, h6, h7, hG, hN, hR, hs, hv] <;>
+    (try funext y) <;> (try split) <;> (try simp_all) <;> omega
+
+theorem C04_unseeded_reset_fresh_modulo_rng (acts : List Val) (i j : Inst) (G G' : Store)
+    (hm : EpisodeMatch i j) (hG : G gImport = G' gImport) (hN : G gNmne = G' gNmne) (hR : G gRng = G' gRng) :
+    ∃ op, resetCall none = some op ∧
+      runSolo (op :: acts.map fun a => (stepProg, a)) i G = runSolo (op :: acts.map fun a => (stepProg, a)) j G' := by
+  refine ⟨(resetProgNoSeed, 0), by decide, ?_⟩
+  have h := reset_noseed_episode_match 0 i j G G' hm hG hN hR
+  simp only [runSolo]
+  rw [h.1, steps_rel acts _ _ _ _ h.2]
+
+/-- and the generator state does matter for an unseeded reset (by design; not claimed as a violation): same instance, generators 5 / 0 -/
+theorem C04_unseeded_reset_depends_on_rng :
+    runSolo [(resetProgNoSeed, 0)] (initInst 7 0 0 1 0 0) (fun g => if g = gRng then 5 else 0)
+      ≠ runSolo [(resetProgNoSeed, 0)] (initInst 7 0 0 1 0 0) (fun _ => 0) := by decide
 
 /-! ### the committed classification and the regenerated inventory -/
 
@@ -600,7 +808,8 @@ def allPhases : List Phase := [.construct, .reset, .step]
 
 /-- COMMITTED table. A function that is not listed here and touches a runtime-written global breaks `C04_gen_functions_known`. -/
 /- notes:
-   getLogger: readers of the NMNE class attributes
+   (since the F-10 repair no function reads or writes an NMNE class attribute at run time: NICObservation.observe, from_config,
+    NetworkInterface._capture_nmne / describe_state and Node.show_nic left this table)
    AirSpaceFrequency.__init__: import time (two module constants) and the unused `register_frequency` API
    WirelessRouter.from_config: readers of SIM_OUTPUT / PRIMAITE_CONFIG: logging, file paths
    network_simulator_demo_example: demo helper, not an environment operation
@@ -614,7 +823,6 @@ def committedFns : List FnRole := [
   ⟨"game.agent.agent_log:AgentLog.error", allPhases, true⟩,
   ⟨"game.agent.agent_log:AgentLog.info", allPhases, true⟩,
   ⟨"game.agent.agent_log:AgentLog.warning", allPhases, true⟩,
-  ⟨"game.agent.observations.nic_observations:NICObservation.observe", allPhases, false⟩,
   ⟨"game.agent.scripted_agents.TAP001:TAP001._select_target_ip", allPhases, false⟩,
   ⟨"game.agent.scripted_agents.TAP001:TAP001._update_next_scan_target", [.step], false⟩,
   ⟨"game.agent.scripted_agents.abstract_tap:AbstractTAP._select_start_node", allPhases, false⟩,
@@ -623,7 +831,6 @@ def committedFns : List FnRole := [
   ⟨"game.agent.scripted_agents.random_agent:PeriodicAgent._set_next_execution_timestep", allPhases, false⟩,
   ⟨"game.agent.scripted_agents.random_agent:PeriodicAgent.start_node", allPhases, false⟩,
   ⟨"game.game:PrimaiteGame.apply_agent_actions", [.step], true⟩,
-  ⟨"game.game:PrimaiteGame.from_config", [.construct, .reset], false⟩,
   ⟨"game.science:simulate_trial", [.step], false⟩,
   ⟨"primaite:getLogger", [], true⟩,
   ⟨"session.environment:PrimaiteGymEnv._write_step_metadata_json", [.step], true⟩,
@@ -634,11 +841,8 @@ def committedFns : List FnRole := [
   ⟨"session.ray_envs:PrimaiteRayMARLEnv._write_step_metadata_json", [.step], true⟩,
   ⟨"simulator.file_system.file_type:FileType.random", [], false⟩,
   ⟨"simulator.network.airspace:AirSpaceFrequency.__init__", [], false⟩,
-  ⟨"simulator.network.hardware.base:NetworkInterface._capture_nmne", allPhases, false⟩,
-  ⟨"simulator.network.hardware.base:NetworkInterface.describe_state", allPhases, false⟩,
   ⟨"simulator.network.hardware.base:NetworkInterface.setup_for_episode", [.reset], true⟩,
   ⟨"simulator.network.hardware.base:Node.__init__", [.construct, .reset], true⟩,
-  ⟨"simulator.network.hardware.base:Node.show_nic", [], true⟩,
   ⟨"simulator.network.hardware.nodes.network.wireless_router:WirelessRouter.from_config", [.construct, .reset], false⟩,
   ⟨"simulator.network.networks:network_simulator_demo_example", [], true⟩,
   ⟨"simulator.system.core.packet_capture:PacketCapture.__init__", [.construct, .reset], true⟩,
@@ -694,69 +898,73 @@ def derive (e : Entry) : GClass :=
   else if allPhases.all (fun ph => !readsIn e ph || uncondWritesIn e ph) then .rewrittenBeforeRead
   else .shared
 
-/-- the two class attributes of F-10 -/
-def knownLeaksB : List String :=
+/-- the two class attributes of F-10 (repaired: no environment operation writes them any more) -/
+def nmneAttrs : List String :=
   [ "game.agent.observations.nic_observations:NICObservation.capture_nmne",
     "simulator.network.hardware.base:NetworkInterface.nmne_config" ]
+
+/-- the entries whose value an operation reads and an operation writes: the ones the write-before-read discipline is about -/
+def readable (e : Entry) : Bool := derive e == .shared || derive e == .rewrittenBeforeRead
 
 /-- the functions that the regenerated inventory shows touching a runtime-written global or a global RNG are exactly the
 functions of the committed role table (a new or renamed function breaks this obligation) -/
 theorem C04_gen_functions_known : committedFns.map (·.fn) = fns := by decide +kernel
 
-/-- the runtime-written globals are exactly the committed six, with these derived classes -/
+/-- the runtime-written globals are exactly the committed FOUR (six before the F-10 repair), with these derived classes: none is read by an
+operation outside logging -/
 theorem C04_gen_classification :
     (entries.filter (fun e => !e.writers.isEmpty)).map (fun e => (e.name, derive e)) =
-      [ ("game.agent.observations.nic_observations:NICObservation.capture_nmne", .shared),
-        ("primaite:PRIMAITE_CONFIG", .importOnly),
+      [ ("primaite:PRIMAITE_CONFIG", .importOnly),
         ("simulator.network.airspace:AirSpaceFrequency._registry", .importOnly),
-        ("simulator.network.hardware.base:NetworkInterface.nmne_config", .shared),
         ("simulator.system.core.packet_capture:PacketCapture._logger_instances", .sinkOnly),
         ("simulator:SIM_OUTPUT", .sinkOnly) ] := by decide +kernel
 
+/-- **F-10 stays repaired**: the two NMNE class attributes are still declared (API: an optional process-wide override / a retained
+name), and NO function of the package assigns them — neither at run time nor at import time beyond the class body. Re-introducing
+`NetworkInterface.nmne_config = …` / `NICObservation.capture_nmne = …` (or a `setattr`) anywhere breaks this obligation. -/
+theorem C04_gen_nmne_per_game :
+    (entries.filter (fun e => nmneAttrs.contains e.name)).map (fun e => (e.name, e.kind, e.importWrites, e.writers)) =
+      [ ("game.agent.observations.nic_observations:NICObservation.capture_nmne", "classvar", ["class-body"], []),
+        ("simulator.network.hardware.base:NetworkInterface.nmne_config", "classvar", ["class-body"], []) ] := by decide +kernel
+
 /-- Every run-time write of a global that some operation reads (derived class `shared` or `rewrittenBeforeRead`) is UNCONDITIONAL: each
-writer function has a write site that is a top-level statement of its body, before any `return`. (`rewrittenBeforeRead` needs it; a
-conditional assignment — "only when the scenario has a non-empty nmne_config" — makes an episode inherit the previous episode's setting,
-`C04_conditional_write_counterexample`.) -/
+writer function has a write site that is a top-level statement of its body, before any `return` / `raise`, and that writer runs WHENEVER
+`from_config` runs to completion (it is from_config itself or a helper called from an unconditional top-level statement: a write moved
+into a helper that is called under an `if` fails here); no `setattr(<class>, <computed name>, …)` anywhere. (A conditional assignment —
+"only when the scenario has a non-empty nmne_config" — makes an episode inherit the previous episode's setting,
+`C04_conditional_write_counterexample`.) Since the F-10 repair no global is readable, so the first part holds of an empty list: it is the
+net for the next one. -/
 theorem C04_gen_writes_unconditional :
-    ((entries.filter fun e => derive e == .shared || derive e == .rewrittenBeforeRead).all fun e =>
-      !e.writers.isEmpty && e.writers.all fun f => e.uncondWriters.contains f) = true := by decide +kernel
+    ((entries.filter readable).all fun e =>
+      !e.writers.isEmpty && (e.writers.all fun f => e.uncondWriters.contains f)
+      && (e.writers.all fun f => e.anchoredWriters.contains f)) = true
+    ∧ dynamicClassWrites = [] := by decide +kernel
 
 /-- the method names of the non-sink reader functions of an entry, writers themselves excluded -/
 def readerIdents (e : Entry) : List String :=
   (e.readers.filter fun f => !isSink f && !e.writers.contains f).filterMap fun f => fnIdents[f]?
 
-/-- Order inside the operation (was an assumption): `from_config` assigns the two NMNE class attributes as top-level statements, and the
-only calls it makes BEFORE those statements are the committed ones — the empty game's constructor, option parsing, `dict.get`, the
-airspace capacity table — none of which is a reader of the attributes (checked by name against the inventory's readers) or builds a node. -/
+/-- Order inside the operation, for the statements of the writer itself: for every readable global and each of its writers the calls made in
+the statements BEFORE the write are extracted, and none of them has the name of a non-sink reader of that global. -/
 theorem C04_gen_write_order :
-    (callsBeforeWrite.filter (fun r => knownLeaksB.contains r.1)).map (fun r => (r.1, r.2.1, r.2.2.1)) =
-      [ ("game.agent.observations.nic_observations:NICObservation.capture_nmne", "game.game:PrimaiteGame.from_config",
-          ["cls", "PrimaiteGameOptions", "cfg.get().get", "cfg.get", "simulation_config.get", "network_config.get", "airspace_cfg.get",
-           "net.airspace.set_frequency_max_capacity_mbps", "NMNEConfig"]),
-        ("simulator.network.hardware.base:NetworkInterface.nmne_config", "game.game:PrimaiteGame.from_config",
-          ["cls", "PrimaiteGameOptions", "cfg.get().get", "cfg.get", "simulation_config.get", "network_config.get", "airspace_cfg.get",
-           "net.airspace.set_frequency_max_capacity_mbps"]) ]
-    ∧ ((callsBeforeWrite.filter (fun r => knownLeaksB.contains r.1)).all fun r =>
-        match entries.find? (fun e => e.name == r.1) with
-        | none => false
-        | some e => r.2.2.2.all fun c => !(readerIdents e).contains c) = true
+    ((entries.filter readable).all fun e => e.writers.all fun f =>
+        callsBeforeWrite.any fun r => r.1 == e.name && fns[f]? == some r.2.1 && r.2.2.2.all fun c => !(readerIdents e).contains c) = true
     ∧ fnIdents.length = fns.length := by decide +kernel
 
 /-- no `global` statement anywhere, and no module logger object is re-bound or mutated by a function -/
 theorem C04_gen_no_global_statements : globalStatements = [] ∧ moduleLoggersWritten = [] := by decide
 
-def knownLeaks : List String := knownLeaksB
-
 /-- Full statement of DESIGN's `gen_globals_safe` -/
 def C04_FullGenGlobalsSafe : Prop := ∀ e ∈ entries, derive e ≠ .shared
 
-/-- every inventory entry other than the two recorded NMNE class attributes (F-10) is import-only, sink-only or
-re-written before read -/
-theorem C04_gen_globals_safe_partial : ∀ e ∈ entries, ¬ knownLeaks.contains e.name → derive e ≠ .shared := by decide +kernel
-
-theorem C04_gen_globals_safe_counterexample : ¬ C04_FullGenGlobalsSafe := by
+/-- **Full since the F-10 repair** (was partial, with the two NMNE class attributes excluded): EVERY inventory entry is import-only,
+sink-only or re-written before read. -/
+theorem C04_gen_globals_safe : C04_FullGenGlobalsSafe := by
   unfold C04_FullGenGlobalsSafe
   decide +kernel
+
+/-- stronger: no entry is even `rewrittenBeforeRead` — no process global carries scenario data from one operation's write to a read -/
+theorem C04_gen_no_readable_global : entries.filter readable = [] := by decide +kernel
 
 /-! the global random generators -/
 
@@ -787,9 +995,7 @@ theorem C04_gen_rng_safe_counterexample : ¬ C04_FullGenRngSafe := by
 def entryNamed (n : String) : Option Entry := entries.find? (fun e => e.name == n)
 
 def numbered : List (Nat × String) :=
-  [ (gNmne, "simulator.network.hardware.base:NetworkInterface.nmne_config"),
-    (gCapture, "game.agent.observations.nic_observations:NICObservation.capture_nmne"),
-    (gSimOutput, "simulator:SIM_OUTPUT"),
+  [ (gSimOutput, "simulator:SIM_OUTPUT"),
     (gPcapLoggers, "simulator.system.core.packet_capture:PacketCapture._logger_instances") ]
 
 /-- For each numbered global and each operation: the skeleton program writes it iff the inventory has a writer in that
@@ -804,6 +1010,27 @@ theorem C04_gen_skeleton_matches :
     ∧ (allPhases.all fun ph =>
           ((unprotectedReads [] (progOf ph)).contains gRng == (rngDrawnIn "random" ph && !rngSeededIn "random" ph))) = true := by
   decide +kernel
+
+/-- Order inside the operation, beyond the statements of `from_config`: the STATIC CALL GRAPH (by name, self type followed through
+constructors, registered lambdas deferred, import-scoped resolution of unknown receivers — harness/extract/sharedstate.py `CallGraph`) from
+every call that `from_config`, `PrimaiteGymEnv.reset` and `PrimaiteGymEnv.__init__` make BEFORE the write of a readable global reaches no
+non-sink reader of it (every readable global has its three rows; none is left since the F-10 repair), and — the generators being the
+one process global that IS re-written and then read — nothing reachable from what `reset` / `__init__` call before their
+`set_random_seed` statement draws from a global generator; no bound of the search was hit. (The rig cross-checks the call graph against the
+functions actually entered before the seeding on monitored runs.) -/
+theorem C04_gen_no_reader_before_write :
+    (reachBeforeWrite.map fun r => (r.1, r.2.1)) =
+      [ ("<process-global generators>", "reset"), ("<process-global generators>", "__init__") ]
+    ∧ ((entries.filter readable).all fun e =>
+        ["from_config", "reset", "__init__"].all fun op => reachBeforeWrite.any fun r => r.1 == e.name && r.2.1 == op) = true
+    ∧ (reachBeforeWrite.all fun r =>
+        !r.2.2.2.2.2 && 0 < r.2.2.2.1 &&
+        if r.1 == "<process-global generators>" then
+          -- the generators: nothing reachable before the seeding statement draws from one
+          (r.2.2.2.2.1.filter fun f => rngUses.any fun u => u.2.1 == f && !isSeeder u.2.2).isEmpty
+        else match entryNamed r.1 with
+        | none => false
+        | some e => (r.2.2.2.2.1.filter fun f => !isSink f && !e.writers.contains f).isEmpty) = true := by decide +kernel
 
 /-! ### what `reset` keeps: the environment-level attributes -/
 
@@ -839,10 +1066,10 @@ theorem reset_env (a : Val) (i : Inst) (G : Store) (p : List Cmd) (h : isResetPr
     (execProg a p i G).1.env = bumpEpisode i.env := by
   simp only [isResetProg, Bool.or_eq_true, beq_iff_eq] at h
   rcases h with h | h <;> subst h
-  · simp only [resetProg, List.cons_append, List.nil_append, execProg, execCmd]
+  · simp only [resetProg, resetHead, List.cons_append, List.nil_append, execProg, execCmd]
     rw [execProg_env_of_noSetEnv _ _ _ _ buildGame_noSetEnv]
     simp [bumpEpisode, eval]
-  · simp only [resetProgNoSeed, List.cons_append, List.nil_append, execProg, execCmd]
+  · simp only [resetProgNoSeed, resetHead, List.cons_append, List.nil_append, execProg, execCmd]
     rw [execProg_env_of_noSetEnv _ _ _ _ buildGame_noSetEnv]
     simp [bumpEpisode, eval]
 
@@ -941,5 +1168,38 @@ theorem C04_gen_reset_shape :
     ∧ constantSchedulerReturns = "copy.deepcopy(self.config)"
     ∧ listSchedulerReturns = ["parsed_cfg"] ∧ listSchedulerParsedBy = "yaml.safe_load"
     ∧ listSchedulerAssigns = ["_exceeded_episode_list"] := by decide +kernel
+
+/-! ### tie: the seed handling of `reset` / `__init__` / `set_random_seed` -/
+
+/-- The regenerated `set_random_seed` and the regenerated guard of `reset` ARE the model's, for EVERY argument (`None`, 0, negative, any
+integer) — a guard written as a truthiness test, a changed sentinel or a dropped branch breaks this. The generators seeded are Python's,
+numpy's (unconditionally, with the argument) and torch's; `reset` seeds in a top-level statement before it rebuilds the game, `__init__`
+seeds unconditionally from `game.seed` of episode 0 before it builds the game. -/
+theorem C04_gen_seed_handling :
+    (∀ (s : Option Int) (gen : Bool), Primaite.Gen.IsolationReset.setRandomSeed s gen = setRandomSeed s gen)
+    ∧ (∀ s : Option Int, Primaite.Gen.IsolationReset.resetSeedGuard s = resetSeedGuard s)
+    ∧ Primaite.Gen.IsolationReset.seedCalls = [("random.seed", "seed", "top"), ("np.random.seed", "seed", "top"),
+        ("th.manual_seed", "seed", "if sys.modules['torch']")]
+    ∧ Primaite.Gen.IsolationReset.resetSeedCall = "set_random_seed(seed, self.generate_seed_value)"
+    ∧ Primaite.Gen.IsolationReset.resetSeedsBeforeNewGame = true
+    ∧ Primaite.Gen.IsolationReset.initSeedStatements =
+        ["self.seed = self.episode_scheduler(0).get('game', {}).get('seed')",
+         "self.generate_seed_value = self.episode_scheduler(0).get('game', {}).get('generate_seed_value')",
+         "self.seed = set_random_seed(self.seed, self.generate_seed_value)"]
+    ∧ Primaite.Gen.IsolationReset.initSeedsBeforeNewGame = true := by
+  refine ⟨?_, ?_, by decide, by decide, by decide, by decide, by decide⟩
+  · intro s gen
+    cases s <;> simp [Primaite.Gen.IsolationReset.setRandomSeed, setRandomSeed]
+  · intro s
+    cases s <;> simp [Primaite.Gen.IsolationReset.resetSeedGuard, resetSeedGuard]
+
+/-- hence the regenerated code re-seeds for every non-negative argument, 0 included (stated on Gen directly) -/
+theorem C04_gen_reset_reseeds_every_seed (v : Int) (gen : Bool) (hv : 0 ≤ v) :
+    (if Primaite.Gen.IsolationReset.resetSeedGuard (some v) then Primaite.Gen.IsolationReset.setRandomSeed (some v) gen else .keeps)
+      = SeedOutcome.seeds v := by
+  rw [C04_gen_seed_handling.1, C04_gen_seed_handling.2.1]
+  have h1 : ¬ v = -1 := by omega
+  have h2 : ¬ v < -1 := by omega
+  simp [resetSeedGuard, setRandomSeed, h1, h2]
 
 end Primaite.Isolation
